@@ -154,6 +154,21 @@ CLAIMS = {
              "coroutine first awaits (so no concurrent caller can pick it: obligation at the probe), the set only "
              "grows, and no terminal answered at the address. Termination of the retry loop is not claimed.",
         note=PYVC_TRUST + "; bus contract; rely: concurrent tasks only add addresses; randint returns any value in range"),
+    "C12": dict(
+        engine="pyvc", category="other", design_ref="DESIGN.md section 4 C12",
+        technique="contract-based deductive verification: the real source of EtherCat.process_packet (per-request "
+                  "outcome clauses over a ghost asyncio.Future model) and of EtherCat.sendloop (loop invariant: the "
+                  "frame holds exactly the dequeued requests at the windows Packet.append reported; iteration "
+                  "postcondition: progress), z3",
+        text="process_packet: for frames with 0..3 requests, any windows, any response bytes and any subset of "
+             "requests already cancelled, every pending request completes exactly once with its own bytes or with "
+             "EtherCatError when its working counter is 0, cancelled ones are left alone, and nothing else is "
+             "raised (O3/O4). sendloop: for any stream of requests the frame handed to process_packet is well "
+             "formed and carries exactly its own requests at their own windows (O1/O2), and an iteration that did "
+             "not dequeue a request disposes of the pending one (O6, no stall). datagram_received/roundtrip_packet "
+             "(O5) are not under contract yet.",
+        note=PYVC_TRUST + "; asyncio.Future/Queue contracts assumed; Packet.append by its C11 contract; bounded in "
+             "requests per frame for process_packet"),
 }
 
 NA = {
